@@ -819,11 +819,19 @@ func raceOnce(kind, tr string, nlive, racers int, rr *recReader) (raceRow, error
 	if !g.srv.IsClosed() {
 		return row, errors.New("server was not closed by the race")
 	}
-	// settle: the websocket handler goroutine runs newSocket after the client got its answer;
-	// wait until every NewSocketCallback invocation is matched by an OnClose (bounded)
-	deadline := time.Now().Add(1500 * time.Millisecond)
+	// settle: the websocket handler goroutine runs newSocket after the client got its answer: wait
+	// (bounded) until every handshake that was answered with a sid has reached NewSocketCallback,
+	// every NewSocketCallback invocation is matched by an OnClose, and the store is empty
+	admitted := int64(0)
+	for _, sid := range row.SIDs {
+		if sid != "" {
+			admitted++
+		}
+	}
+	deadline := time.Now().Add(3 * time.Second)
 	for time.Now().Before(deadline) {
-		if len(g.srv.VerifSessions()) == 0 && atomic.LoadInt64(&g.onClose) >= atomic.LoadInt64(&g.onSocket) {
+		if atomic.LoadInt64(&g.onSocket)-s0 >= admitted && len(g.srv.VerifSessions()) == 0 &&
+			atomic.LoadInt64(&g.onClose) >= atomic.LoadInt64(&g.onSocket) {
 			break
 		}
 		time.Sleep(time.Millisecond)
